@@ -170,9 +170,15 @@ func TestVerifC16Proxy(t *testing.T) {
 			plugin := &c16pPlugin{ok: map[string]bool{}, fail: map[string]bool{}, yield: c16pYielder(r.Fork())}
 			pods := make([]*corev1.Pod, total)
 			anyFail := false
+			noNode := 0
 			for i := range pods {
 				pods[i] = &corev1.Pod{ObjectMeta: metav1.ObjectMeta{Name: fmt.Sprintf("p%d", i), Namespace: fmt.Sprintf("ns%d", r.Intn(nss))},
 					Spec: corev1.PodSpec{NodeName: fmt.Sprintf("node%d", r.Intn(nodes))}}
+				if r.Pct(12) {
+					// a pod that is not assigned to a node (pending): subject to the namespace and total caps only
+					pods[i].Spec.NodeName = ""
+					noNode++
+				}
 				if r.Pct(failPct) {
 					plugin.fail[pods[i].Namespace+"/"+pods[i].Name] = true
 					anyFail = true
@@ -216,9 +222,12 @@ func TestVerifC16Proxy(t *testing.T) {
 			byKey := map[string]*corev1.Pod{}
 			for _, p := range pods {
 				byKey[p.Namespace+"/"+p.Name] = p
-				reqNode[p.Spec.NodeName]++
+				if p.Spec.NodeName != "" {
+					reqNode[p.Spec.NodeName]++
+				}
 				reqNS[p.Namespace]++
 			}
+			c.Count("pods_without_node", noNode)
 			seen := map[string]int{}
 			arrival := ""
 			for _, k := range plugin.received {
@@ -226,7 +235,9 @@ func TestVerifC16Proxy(t *testing.T) {
 				p := byKey[k]
 				arrival += fmt.Sprintf("%s:%v,", k, plugin.fail[k])
 				if plugin.ok[k] {
-					okNode[p.Spec.NodeName]++
+					if p.Spec.NodeName != "" {
+						okNode[p.Spec.NodeName]++
+					}
 					okNS[p.Namespace]++
 					okTotal++
 				}
